@@ -263,8 +263,8 @@ theorem step6Full_eq (c : Cfg) (fam : IsiFamily) (o : Oracles) (obs oF H F : Lis
     `[lo]*n_l ++ mid ++ [hi]*n_u`, where `lo` / `hi` are the (finite) bounds whenever they are used and `mid` is either
     the untouched middle segment or what `_step6_adjust_values_between_thresholds` returned for it -/
 theorem step6After_shape (c : Cfg) (fam : IsiFamily) (o : Oracles) (Os OFs Hs A B C F : List Rat) (r : Step6Out)
-    (hadj : ∀ v br pre, adjustBetween c fam o (valuesBetween c Os) (valuesBetween c OFs) (valuesBetween c Hs) B
-      (valuesBetween c (A ++ (B ++ C))) = .ok (v, br, pre) → v.length = B.length)
+    (hadj : valuesBetween c OFs ≠ [] → ∀ v br pre, adjustBetween c fam o (valuesBetween c Os) (valuesBetween c OFs)
+      (valuesBetween c Hs) B (valuesBetween c (A ++ (B ++ C))) = .ok (v, br, pre) → v.length = B.length)
     (h : step6After c fam o Os OFs Hs (A ++ (B ++ C)) (A.length : Int) (C.length : Int) F = .ok r) :
     ∃ lo hi mid, r.mappedSorted = List.replicate A.length lo ++ (mid ++ List.replicate C.length hi) ∧
       r.result = takeIdx r.mappedSorted (rankOf F) ∧
@@ -327,9 +327,10 @@ theorem step6After_shape (c : Cfg) (fam : IsiFamily) (o : Oracles) (Os OFs Hs A 
       injection h with h
       subst h
       obtain ⟨mid, br, pre⟩ := v
-      have hl := hadj mid br pre hv
-      refine ⟨lo, hi, mid, hfill mid hl, rfl, hA, hC, hl, Or.inr ⟨?_, br, pre, hv⟩⟩
-      intro he; rw [he] at hOF; simp at hOF
+      have hne : valuesBetween c OFs ≠ [] := by
+        intro he; rw [he] at hOF; simp at hOF
+      have hl := hadj hne mid br pre hv
+      exact ⟨lo, hi, mid, hfill mid hl, rfl, hA, hC, hl, Or.inr ⟨hne, br, pre, hv⟩⟩
     · rw [if_neg hOF] at h
       injection h with h
       subst h
@@ -340,5 +341,103 @@ theorem step6After_shape (c : Cfg) (fam : IsiFamily) (o : Oracles) (Os OFs Hs A 
     injection h with h
     subst h
     exact ⟨lo, hi, B, e2, rfl, hA, hC, rfl, Or.inl rfl⟩
+
+/-! ### the values between the bounds -/
+
+/-- the ISIMIP v2.5 pre-mapping of the entries not sent to a bound onto the values between thresholds, value-wise -/
+def premap1 (c : Cfg) (Fns Fbt : List Rat) : Rat → Rat :=
+  match c.modeNpqm with
+  | .normal => qmap1 c.ecdfMethod c.iecdfMethod Fns Fbt
+  | .isimipv30 => qmapIsimip1 Fns Fbt
+
+theorem qmapXonY_eq_map (c : Cfg) (x y : List Rat) : qmapXonY c x y = x.map (premap1 c x y) := by
+  unfold qmapXonY premap1
+  cases c.modeNpqm
+  · exact Props.C16.qmap_eq_map _ _ _ _ _
+  · exact Props.C16.qmapIsimip_eq_map _ _
+
+theorem premap1_mono (c : Cfg) (x y : List Rat) (hy : y ≠ []) : MonoR (premap1 c x y) := by
+  unfold premap1
+  cases c.modeNpqm
+  · exact qmap1_mono_any _ _ x y hy
+  · exact fun v w h => qmapIsimip1_mono x y hy h
+
+theorem thrCdf_range (v : Rat) : 0 < thrCdf v ∧ thrCdf v < 1 := by
+  have := Props.C16.thresholdCdf_range (1 / 10000000000) v (by norm_num)
+  unfold thrCdf
+  constructor <;> [linarith [this.1]; linarith [this.2]]
+
+theorem thrCdf_mono : MonoR thrCdf := fun _ _ h => Props.C16.thresholdCdf_mono _ h
+
+/-- **every branch of `_step6_adjust_values_between_thresholds`** (event likelihood adjustment off) returns the
+    pointwise image of the entries not sent to a bound under a monotone map with values inside the bounds -/
+theorem adjustBetween_spec (c : Cfg) (fam : IsiFamily) (o : Oracles) (Obt OFbt Hbt Fns Fbt v : List Rat) (br : Branch) (pre : Bool)
+    (hela : c.eventLikelihoodAdjustment = false) (hL : IsiLaws c fam)
+    (hOF : OFbt ≠ []) (hin : ∀ w ∈ OFbt, InBounds c w)
+    (h : adjustBetween c fam o Obt OFbt Hbt Fns Fbt = .ok (v, br, pre)) :
+    ∃ T : Rat → Rat, MonoR T ∧ (∀ a, InBounds c (T a)) ∧ v = Fns.map T := by
+  -- the non-parametric map onto the pseudo-future observations between thresholds
+  have fb : ∀ (X : List Rat) (T0 : Rat → Rat), MonoR T0 → X = Fns.map T0 →
+      ∃ T : Rat → Rat, MonoR T ∧ (∀ a, InBounds c (T a)) ∧ qmap c.ecdfMethod c.iecdfMethod X OFbt X = Fns.map T := by
+    intro X T0 hT0 hX
+    refine ⟨fun a => qmap1 c.ecdfMethod c.iecdfMethod X OFbt (T0 a),
+      MonoR.comp (qmap1_mono_any _ _ X OFbt hOF) hT0, ?_, ?_⟩
+    · intro a
+      have hr := qmap1_range_any c.ecdfMethod c.iecdfMethod X OFbt hOF (T0 a)
+      exact inBounds_between (hin _ (minQ_mem hOF)) (hin _ (maxQ_mem hOF)) hr.1 hr.2
+    · rw [Props.C16.qmap_eq_map]
+      conv_lhs => arg 2; rw [hX]
+      rw [List.map_map]; rfl
+  unfold adjustBetween at h
+  simp only [bind, Except.bind, pure, Except.pure, hela] at h
+  generalize hX : (if (c.hasThreshold && decide (Fbt.length > 0)) = true then qmapXonY c Fns Fbt else Fns) = X at h
+  by_cases hnp : c.nonparametricQm = true
+  · rw [if_pos hnp] at h
+    injection h with h
+    obtain ⟨T, h1, h2, h3⟩ := fb Fns id (fun _ _ h => h) (by simp)
+    exact ⟨T, h1, h2, by rw [← h3]; exact (congrArg Prod.fst h).symm⟩
+  rw [if_neg hnp] at h
+  have hpre : ∃ T0 : Rat → Rat, MonoR T0 ∧ X = Fns.map T0 := by
+    by_cases hp : (c.hasThreshold && decide (Fbt.length > 0)) = true
+    · rw [if_pos hp] at hX
+      have hne : Fbt ≠ [] := by
+        intro he; rw [he] at hp; simp at hp
+      exact ⟨premap1 c Fns Fbt, premap1_mono c Fns Fbt hne, by rw [← hX, qmapXonY_eq_map]⟩
+    · rw [if_neg hp] at hX
+      exact ⟨id, fun _ _ h => h, by rw [← hX]; simp⟩
+  obtain ⟨T0, hT0, hX0⟩ := hpre
+  obtain ⟨T, h1, h2, h3⟩ := fb X T0 hT0 hX0
+  have done : ∀ b p, (Except.ok (qmap c.ecdfMethod c.iecdfMethod X OFbt X, b, p) : Except String _) = .ok (v, br, pre) →
+      ∃ T : Rat → Rat, MonoR T ∧ (∀ a, InBounds c (T a)) ∧ v = Fns.map T := by
+    intro b p h
+    injection h with h
+    exact ⟨T, h1, h2, by rw [← h3]; exact (congrArg Prod.fst h).symm⟩
+  by_cases hF0 : Fbt.length = 0
+  · rw [if_pos hF0] at h; exact done _ _ h
+  rw [if_neg hF0] at h
+  by_cases hfew : (decide (Fbt.length = 1) || decide (OFbt.length ≤ 1)) = true
+  · rw [if_pos hfew] at h; exact done _ _ h
+  rw [if_neg hfew] at h
+  split at h
+  · cases h
+  rename_i fa hfa
+  split at h
+  · rename_i fitF fitOF hfF hfOF
+    by_cases hks : (c.ksTest && !o.ksGood) = true
+    · rw [if_pos hks] at h; exact done _ _ h
+    · rw [if_neg hks] at h
+      simp only [Bool.not_false, if_true] at h
+      injection h with h
+      have hv := (congrArg Prod.fst h).symm
+      simp only [] at hv
+      have hfa' : fixedArgs c = .ok (fa.1, fa.2) := hfa
+      refine ⟨fun a => fam.ppf fitOF (thrCdf (fam.cdf fitF (T0 a))), ?_, ?_, ?_⟩
+      · intro a b hab
+        have m1 := hL.cdf_mono _ _ hfa' _ _ hfF _ _ (hT0 a b hab)
+        exact hL.ppf_mono _ _ hfa' _ _ hfOF _ _ (thrCdf_range _).1 (thrCdf_mono _ _ m1) (thrCdf_range _).2
+      · intro a
+        exact hL.support _ _ hfa' _ _ hfOF _ (thrCdf_range _).1 (thrCdf_range _).2
+      · rw [hv, hX0, List.map_map, List.map_map]; rfl
+  · exact done _ _ h
 
 end Lemmas.C09
